@@ -7,3 +7,4 @@ for P in "$@"; do
   if [ -z "$out" ]; then echo "MISSED $P $(basename $M)"; else echo "CAUGHT $P $(basename $M): $out"; fi
 done
 git -C /repo checkout -- .
+rm -f /verif/build/harness   # it was built from the mutated tree
